@@ -153,6 +153,7 @@ package goose
 //@   loop 1 invariant [one identifier per target so far] len(idents) == rangeindex + 1
 //@ func (Ctx).sliceExpr (ctx, e)
 //@   may_reject
+//@   ensures [a term is returned] result != nil
 //@   ensures [no 3-index slices, no complete slice] !e.Slice3 && e.Max == nil && !(e.Low == nil && e.High == nil)
 //@ func (Ctx).branchStmt (ctx, s)
 //@   may_reject
@@ -166,14 +167,19 @@ package goose
 //@ func (Ctx).loopVar (ctx, s)
 //@   may_reject
 //@   ensures [loop initialisation is a single := of one identifier] typeis(s, *ast.AssignStmt) && s.(*ast.AssignStmt).Tok == token.DEFINE && len(s.(*ast.AssignStmt).Lhs) == 1 && len(s.(*ast.AssignStmt).Rhs) == 1 && typeis(s.(*ast.AssignStmt).Lhs[0], *ast.Ident)
+//@ ghost func objof(ctx Ctx, id *ast.Ident) types.Object = ctx.info.Uses[id] != nil ? ctx.info.Uses[id] : ctx.info.Defs[id]
+//@ ghost func ptrwrapped(ctx Ctx, id *ast.Ident) bool = ctx.idents.isPtrWrapped[objof(ctx, id)]
 //@ func (Ctx).incDecStmt (ctx, stmt)
 //@   may_reject
+//@   ensures [only variables that live in memory are incremented] typeis(stmt.X, *ast.Ident) ==> old(ptrwrapped(ctx, stmt.X.(*ast.Ident)))
 //@   ensures [only variables are incremented] typeis(stmt.X, *ast.Ident)
 //@ func (Ctx).unaryExpr (ctx, e)
 //@   may_reject
+//@   ensures [a term is returned] result != nil
 //@   ensures [only !, ^ and & are supported] e.Op == token.NOT || e.Op == token.XOR || e.Op == token.AND
 //@ func (Ctx).binExpr (ctx, e)
 //@   may_reject
+//@   ensures [a term is returned] result != nil
 //@   ensures [only operators of the table] e.Op == token.ADD || e.Op == token.LSS || e.Op == token.GTR || e.Op == token.SUB || e.Op == token.EQL || e.Op == token.NEQ || e.Op == token.MUL || e.Op == token.QUO || e.Op == token.REM || e.Op == token.LEQ || e.Op == token.GEQ || e.Op == token.AND || e.Op == token.LAND || e.Op == token.OR || e.Op == token.LOR || e.Op == token.XOR || e.Op == token.SHL || e.Op == token.SHR
 //@ func (Ctx).field (ctx, f)
 //@   may_reject
@@ -202,12 +208,14 @@ package goose
 //@   ensures [width 64 is uint64, uint and int] result.1 ==> (result.0.width == 64 <==> bkind(t) == types.Uint || bkind(t) == types.Int || bkind(t) == types.Uint64)
 //@ func (Ctx).basicLiteral (ctx, e)
 //@   may_reject
+//@   ensures [a term is returned] result != nil
 //@   ensures [only string and integer literals] e.Kind == token.STRING || e.Kind == token.INT
 //@   ensures [an integer literal is translated only at a modelled integer type] e.Kind == token.INT ==> modelledint(pure(types.Type, "(*go/types.Info).TypeOf", ctx.info, ast.Expr(e)))
 //@   also C05
 //@   ensures [string literals contain no double quote] e.Kind == token.STRING ==> !contains(pure(string, "go/constant.StringVal", ctx.info.Types[ast.Expr(e)].Value), "\"")
 //@ func (Ctx).exprSpecial (ctx, e, isSpecial)
 //@   may_reject
+//@   ensures [a term is returned] result != nil
 //@   ensures [type assertions are not silently dropped] !typeis(e, *ast.TypeAssertExpr)
 //@   ensures [only supported expression kinds] typeis(e, *ast.CallExpr) || typeis(e, *ast.MapType) || typeis(e, *ast.Ident) || typeis(e, *ast.SelectorExpr) || typeis(e, *ast.CompositeLit) || typeis(e, *ast.BasicLit) || typeis(e, *ast.BinaryExpr) || typeis(e, *ast.SliceExpr) || typeis(e, *ast.IndexExpr) || typeis(e, *ast.UnaryExpr) || typeis(e, *ast.ParenExpr) || typeis(e, *ast.StarExpr) || typeis(e, *ast.TypeAssertExpr) || typeis(e, *ast.FuncLit)
 //@ func (Ctx).rangeStmt (ctx, s)
@@ -269,6 +277,7 @@ package goose
 //@ ghost func calledfun(call *ast.CallExpr) ast.Expr = typeis(call.Fun, *ast.IndexExpr) ? call.Fun.(*ast.IndexExpr).X : (typeis(call.Fun, *ast.IndexListExpr) ? call.Fun.(*ast.IndexListExpr).X : call.Fun)
 //@ func (Ctx).methodExpr (ctx, call)
 //@   may_reject
+//@   ensures [a term is returned] result != nil
 //@   ensures [conversion to string only from strings and byte slices] old(pure(bool, "(go/types.TypeAndValue).IsType", ctx.info.Types[call.Fun])) && identnamed(call.Fun, "string") ==> isstringtype(utype(tyof(ctx, call.Args[0]))) || isbyteslice(tyof(ctx, call.Args[0]))
 //@   ensures [only conversions and calls of named functions or methods] old(pure(bool, "(go/types.TypeAndValue).IsType", ctx.info.Types[call.Fun])) || typeis(calledfun(call), *ast.Ident) || typeis(calledfun(call), *ast.SelectorExpr)
 //@ func (Ctx).makeSliceExpr (ctx, elt, args)
@@ -276,20 +285,47 @@ package goose
 //@   ensures [make of a slice has a length and at most a capacity] len(args) == 2 || len(args) == 3
 //@ func (Ctx).integerConversion (ctx, s, x, width)
 //@   may_reject
+//@   ensures [a term is returned] result != nil
 //@   ensures [conversions only from the modelled, typed integer types] modelledint(tyof(ctx, x)) && bkind(tyof(ctx, x)) != types.UntypedInt
 //@ func (Ctx).selectExpr (ctx, e)
 //@   may_reject
 //@   ensures [a term is returned] result != nil
 //@ func (Ctx).nilExpr (ctx, e)
 //@   may_reject
+//@   ensures [a term is returned] result != nil
 //@   ensures [nil only at pointer and slice types (and the untyped nil)] typeis(tyof(ctx, ast.Expr(e)), *types.Pointer) || typeis(tyof(ctx, ast.Expr(e)), *types.Slice) || typeis(tyof(ctx, ast.Expr(e)), *types.Basic)
 //@ func (Ctx).identExpr (ctx, e)
 //@   may_reject
+//@   ensures [a term is returned] result != nil
 //@   ensures [of the predeclared identifiers only nil, true and false are values] old(has(ctx.info.Uses, e) && pure(*types.Scope, "(go/types.Object).Parent", ctx.info.Uses[e]) == types.Universe) ==> e.Name == "nil" || e.Name == "true" || e.Name == "false"
 //@ func (Ctx).indexExpr (ctx, e, isSpecial)
 //@   may_reject
 //@   ensures [indexing only into maps and slices] typeis(utype(tyof(ctx, e.X)), *types.Map) || typeis(utype(tyof(ctx, e.X)), *types.Slice)
 
+//@ func (Ctx).expr (ctx, e)
+//@   may_reject
+//@   ensures [a term is returned] result != nil
+//@ func (Ctx).derefExpr (ctx, e)
+//@   may_reject
+//@   ensures [a term is returned] result != nil
+//@ func (Ctx).variable (ctx, s)
+//@   may_reject
+//@   noframe
+//@   ensures [a term is returned] result != nil
+//@ func (Ctx).function (ctx, s)
+//@   may_reject
+//@   noframe
+//@   ensures [a term is returned] result != nil
+//@ func (Ctx).copyExpr (ctx, n, dst, src)
+//@   may_reject
+//@   ensures [a term is returned] result != nil
+//@ ghost func derefty(t types.Type) types.Type = typeis(t, *types.Pointer) ? pure(types.Type, "(*go/types.Pointer).Elem", t.(*types.Pointer)) : t
+//@ ghost func isstructty(t types.Type) bool = typeis(derefty(t), *types.Named) && typeis(pure(types.Type, "(*go/types.Named).Underlying", derefty(t).(*types.Named)), *types.Struct)
+//@ func (Ctx).getStructInfo (ctx, t)
+//@   may_reject
+//@   noframe
+//@   ensures [a struct type is a named type over a struct, possibly behind one pointer] result.1 <==> isstructty(t)
+//@   ensures [through a pointer exactly for pointer types] result.1 ==> (result.0.throughPointer <==> typeis(t, *types.Pointer))
 //@ func (Ctx).mapRangeStmt (ctx, s)
 //@   may_reject
 //@   ensures [a term is returned] result != nil
@@ -298,8 +334,11 @@ package goose
 //@   may_reject
 //@   ensures [a term is returned] result != nil
 //@   ensures [references only to variables and struct fields] typeis(s, *ast.Ident) || typeis(s, *ast.SelectorExpr)
+//@   ensures [field references only into struct types] typeis(s, *ast.SelectorExpr) ==> isstructty(tyof(ctx, s.(*ast.SelectorExpr).X))
 //@ func (Ctx).assignFromTo (ctx, s, lhs, rhs)
+//@   requires [the assigned value is a term] rhs != nil
 //@   may_reject
+//@   ensures [a statement is returned: every unsupported target is rejected] result.Expr != nil
 //@   ensures [assignment targets are variables, elements, pointees or fields] typeis(lhs, *ast.Ident) || typeis(lhs, *ast.IndexExpr) || typeis(lhs, *ast.StarExpr) || typeis(lhs, *ast.SelectorExpr)
 //@   ensures [element update only of slices and maps] typeis(lhs, *ast.IndexExpr) ==> typeis(tyof(ctx, lhs.(*ast.IndexExpr).X), *types.Slice) || typeis(tyof(ctx, lhs.(*ast.IndexExpr).X), *types.Map)
 //@ func (Ctx).funcDecl (ctx, d)
@@ -339,6 +378,7 @@ package goose
 //@ ghost func builtincall(ctx Ctx, s *ast.CallExpr, name string) bool = isuniverse(ctx, s.Fun) && fname(s.Fun) == name
 //@ func (Ctx).callExpr (ctx, s)
 //@   may_reject
+//@   ensures [a term is returned] result != nil
 //@   noframe
 //@   use ast
 //@   ensures [append takes a slice and one more argument] old(builtincall(ctx, s, "append")) ==> len(s.Args) == 2
@@ -407,8 +447,10 @@ package goose
 //@   ghost_ensures depset == old(depset)[ref(dt) := old(depset)[ref(dt)][s := true]]
 //@   modifies dt.deps, elems(dt.deps, len(dt.deps), cap(dt.deps)), depset
 //@ func (Ctx).coqRecurFunc (ctx, fullFuncName, e)
+//@   also C02 C07
 //@   requires [dependency on the called function is recorded by the caller] depset[ref(ctx.dep)][fullFuncName]
 //@   may_reject
+//@   ensures [a term is returned] result != nil
 //@ func (Ctx).structSelector (ctx, info, e)
 //@   may_reject
 //@   ensures [dependency on the struct recorded] depset[ref(ctx.dep)][info.name]
